@@ -14,6 +14,8 @@ After(s, e) == CASE e.op = "Add" -> [s EXCEPT ![e.n] = {p \in @ : p[1] # e.k /\ 
                  [] e.op = "RemoveForward" -> [s EXCEPT ![e.n] = {p \in @ : p[1] # e.k}]
                  [] e.op = "RemoveReverse" -> [s EXCEPT ![e.n] = {p \in @ : p[2] # e.v}]
                  [] e.op = "Clear" -> [s EXCEPT ![e.n] = {}]
+                 [] e.op = "RangeDel" -> [s EXCEPT ![e.n] = {p \in @ : p[1] # e.k}]
+                 [] e.op = "RangeAdd" -> [s EXCEPT ![e.n] = {p \in @ : p[1] # e.k /\ p[2] # e.v} \cup {<<e.k, e.v>>}]
                  [] e.op = "Clone" -> [s EXCEPT ![Other(e.n)] = s[e.n]]
                  [] OTHER -> s
 \* "GetForward(k) = (v,true) exactly when GetReverse(v) = (k,true)"
@@ -40,6 +42,11 @@ C_Probe(P, e) ==
     [] e.op = "ContainsForward" -> e.pok = (\E p \in P : p[1] = e.k)
     [] e.op = "ContainsReverse" -> e.pok = (\E p \in P : p[2] = e.v)
     [] OTHER -> TRUE
+\* Range whose callback changes the bimap when it sees its first pair (before = pairs at the start, after = pairs at the end):
+\* every pair shown existed before or exists after, none is shown twice, and every pair that was there throughout is shown
+C_RangeMut(before, after, e) == e.op \in {"RangeDel", "RangeAdd"} =>
+   LET V == {<<e.vis[i][1], e.vis[i][2]>> : i \in 1..Len(e.vis)} IN
+   /\ Cardinality(V) = Len(e.vis) /\ V \subseteq before \cup after /\ (before \cap after) \subseteq V
 C_NoPanic(e) == e.panic = ""
 AllN(P, o) == C_Inverse(o) /\ C_Model(P, o) /\ C_Contains(o) /\ C_Len(P, o) /\ C_Range(P, o) /\ C_RangeStop(P, o)
 \* (q: in large universes the whole API is read back only at chosen points; Len after every call)
@@ -48,7 +55,7 @@ TInit == bm = [n \in Names |-> {}] /\ l = 1
 Reset == l <= Len(Trace) /\ Ev.op = "Reset" /\ l' = l + 1 /\ bm' = [n \in Names |-> {}] /\ (Gate => All(bm', Ev))
 Step == /\ l <= Len(Trace) /\ Ev.op # "Reset" /\ l' = l + 1
         /\ bm' = After(bm, Ev)
-        /\ (Gate => All(bm', Ev))
+        /\ (Gate => All(bm', Ev) /\ C_RangeMut(bm[Ev.n], bm'[Ev.n], Ev))
 TSpec == TInit /\ [][Reset \/ Step]_vars
 Obs == Trace[l - 1]
 Chk == ~Gate /\ l > 1
